@@ -7,6 +7,7 @@
   handle_datapackage      : descriptor serialised once; stats read from the descriptor afterwards
   write_file_to_output    : the file lands at out_path/<recorded path>
 """
+from contracts import findings_natives as KF
 from contracts.common import Item
 from contracts import dumpers as DM, natives as N
 
@@ -26,4 +27,5 @@ ITEMS = [
     Item('ZipDumper', DM.sym_zip_dumper, [], DM.D + 'to_zip.py::ZipDumper.write_file_to_output'),
     Item('DumperBase.process_resources', DM.sym_process_resources, [], DM.D + 'dumper_base.py::DumperBase.process_resources'),
     Item('dumps', None, [('statistics', N.nat_dump_stats), ('dropping-validator', N.nat_dump_dropping_validator)], None),
+    Item('recorded-findings', None, [('bounded', KF.nat_findings_c09)], 'dataflows/processors/dumpers/file_dumper.py::FileDumper.rows_processor'),
 ]
